@@ -303,7 +303,7 @@ SUBCHECKS = {
         describe="pinch_analysis_service on every base problem and on every twin the transformation group generates; pairwise relation on every record and on graph data",
         rule="case = base problem; transitions = 1 + number of twins; non-trivial = >=3 twins that are not literally identical to the base; outcomes = distinct base results",
         cases=bases, run=run,
-        bound=lambda t: "multisets <=2 (18 types) + 3-multisets (6 types), <=2 zones, {no utilities, 4-level ladder}, all generators" if t == "quick"
+        bound=lambda t: "multisets <=2 (18 types) + 3-multisets (6 types), <=2 zones, {no utilities, 4-level ladder}, all generators; zero-crossing lattice with two further ladders under translations / scalings / mirror / renaming" if t == "quick"
         else "multisets <=2 (36 types) + 3-multisets (18 types), <=2 zones, {none, ladder}, all generators",
     ),
 }
